@@ -56,6 +56,7 @@ const (
 	vPageMask36 = uint64(1<<36 - 1)
 	vStrayObs   = uint64(0xEE)
 	vKernelSlot = 7
+	vSafeBits   = uint64(0xFFF0000000000F7E) // every bit except P, PS and the frame field
 )
 
 type verifStray struct {
@@ -362,7 +363,12 @@ type vRun struct {
 	zfSet  bool
 	stats  map[string]int
 	minit  [8]bool // monitor's view: the last Init of the slot succeeded
+	// C05: the early reservations as requested (MapRegion), and whether every one of them was mapped
+	resv    []vRegion
+	resvBad bool
 }
+
+type vRegion struct{ start, n, frame, flags uint64 }
 
 func (r *vRun) mon(sig string, format string, args ...interface{}) {
 	r.out.Mon(r.id, r.prop+":"+sig, format, args...)
@@ -445,6 +451,7 @@ func (r *vRun) runCase(nums []uint64) (obs []uint64) {
 	earlyReserveLastUsed = uintptr(last0)
 	ReservedZeroedFrame, protectReservedZeroedPage = 0, false
 	kernelPDT = PageDirectoryTable{}
+	r.resvBad = nums[2] != 0
 	r.want = map[uint64]map[uint64]vWant{s.lo: {}}
 	r.used = map[uint64]bool{s.lo: true}
 
@@ -452,7 +459,7 @@ func (r *vRun) runCase(nums []uint64) (obs []uint64) {
 		op := cur.Next()
 		var args []uint64
 		var secs []vSection
-		nargs := map[uint64]int{0: 3, 1: 1, 2: 1, 3: 1, 4: 2, 5: 4, 6: 2, 7: 1, 8: 3, 9: 3, 10: 3, 11: 2, 12: 0, 13: 2, 14: 1, 15: 1, 16: 1, 17: 3}
+		nargs := map[uint64]int{0: 3, 1: 1, 2: 1, 3: 1, 4: 2, 5: 4, 6: 2, 7: 1, 8: 3, 9: 3, 10: 3, 11: 2, 12: 0, 13: 2, 14: 1, 15: 1, 16: 1, 17: 3, 18: 3}
 		n, okop := nargs[op]
 		if !okop {
 			obs = append(obs, 0xBAD0, op)
@@ -614,6 +621,21 @@ func (r *vRun) step(op uint64, a []uint64, secs []vSection) (res []uint64, stray
 			lvl := int(a[1] & 3)
 			if t, ok := s.tableOnPath(s.cr3>>12, a[0]&vPageMask36, lvl); ok {
 				*s.word(t, vIdx(a[0]&vPageMask36, lvl)) ^= a[2]
+			} else {
+				code = 1
+			}
+		case 18: // set-up: or translation-neutral bits into a present upper-level entry / the recursive entry
+			m := a[2] & vSafeBits
+			lvl := int(a[1] & 3)
+			root := s.cr3 >> 12
+			if lvl == 3 {
+				if s.backed(root) && *s.word(root, 511)&vP != 0 {
+					*s.word(root, 511) |= m
+				} else {
+					code = 1
+				}
+			} else if t, ok := s.tableOnPath(root, a[0]&vPageMask36, lvl); ok && *s.word(t, vIdx(a[0]&vPageMask36, lvl))&vP != 0 {
+				*s.word(t, vIdx(a[0]&vPageMask36, lvl)) |= m
 			} else {
 				code = 1
 			}
